@@ -198,6 +198,44 @@ func runC19(c *ctx) {
 			}
 		}
 	}
+	// the same literal, spelled alike, in items of different types in consecutive messages (nothing learnt about a
+	// spelling in one message may be used in the next)
+	{
+		lits := []string{"0.1", "1e-3", "16777217", "3.4028235e38", "1e39", "255", "256", "-1", "0x10", "0b1", "1", "0", "-0", "2.5", "1e2", "65535", "65536", "4294967295", "127", "128", "-128", "0x7F", "0xFF", "T", "F"}
+		types := []string{"F4", "F8", "U1", "U2", "U4", "U8", "I1", "I2", "I8", "B", "BOOLEAN"}
+		for _, lit := range lits {
+			for _, t1 := range types {
+				for _, t2 := range types {
+					if t1 == t2 {
+						continue
+					}
+					a := "S1F1 W H->E <" + t1 + " " + lit + " " + lit + "> ."
+					b := "S1F2 H<-E <" + t2 + " " + lit + "> ."
+					c.Class("same-literal-other-type")
+					c19Eval(c, c19Case{Parts: []string{a, b}, Seps: []string{"\n", ""}})
+					c19Eval(c, c19Case{Parts: []string{a, "S9F9 W .", b, a}, Seps: []string{" ", "\n", "", ""}})
+				}
+			}
+		}
+	}
+	// long sequences: a name used in every message, and names that come back after 255, 256, 257 messages (per-message
+	// bookkeeping must not be a small counter)
+	for _, n := range []int{254, 255, 256, 257, 258, 300, 511, 513, c.pick(600, 66000)} {
+		var parts, seps []string
+		for i := 0; i < n; i++ {
+			switch {
+			case i%255 == 3:
+				parts = append(parts, fmt.Sprintf("S1F1 W H->E m%d <L <U1 again> <A back> <L recur ...>> .", i))
+			case i%2 == 0:
+				parts = append(parts, "S1F1 W H->E <L <U1 every> <A[0..5] other>> .")
+			default:
+				parts = append(parts, fmt.Sprintf("S2F%d <L <I2 every> nn%d> .", 2*(i%100), i))
+			}
+			seps = append(seps, []string{"\n", " ", "", " // c\n"}[i%4])
+		}
+		c.Class("hundreds-of-messages")
+		c19Eval(c, c19Case{Parts: parts, Seps: seps})
+	}
 	// a message with exactly n variables, then messages that reuse each of its names in every kind of place
 	for n := 1; n <= 20; n++ {
 		var sb strings.Builder
@@ -230,7 +268,7 @@ func runC19(c *ctx) {
 			}
 		}
 	}
-	c.Required = []string{"edge-spellings", "n-variables-then-reuse", "parts=2", "parts=3", "parts=4", "shared-variable-names", "ellipses-in-several-parts", "with-warnings", "header-kind-pairs"}
+	c.Required = []string{"edge-spellings", "n-variables-then-reuse", "parts=2", "parts=3", "parts=4", "shared-variable-names", "ellipses-in-several-parts", "with-warnings", "header-kind-pairs", "same-literal-other-type", "hundreds-of-messages", "parts=257", "parts=300"}
 }
 
 func replayC19(c *ctx, raw json.RawMessage) {
